@@ -102,6 +102,12 @@ def run_case(ctx):
     n_ch = n_cond + int(rng.integers(0, 12))
     signal = float(gen.pick(rng, [0.25, 1.0, 2.5, 7.0]))
     model, theta, pred, mkind = make_model(rng, n_cond)
+    used_before = False
+    if theta is not None and rng.integers(2):
+        # the model object has simulated data before, at other parameters (a sweep over parameter values reuses one model)
+        other = theta[::-1].copy() if not np.array_equal(theta[::-1], theta) else theta * 0.5
+        make_dataset(model, other, np.arange(n_cond), n_channel=n_cond + 1, noise=0, use_exact_signal=True)
+        used_before = True
     cond_input = gen.pick(rng, ['vector', 'matrix'])
     sig = dict(model=mkind, cond_input=cond_input, n_part=n_part, n_sim=n_sim, small=n_cond <= 2, square=n_ch == n_cond)
     # ---- design
